@@ -290,7 +290,8 @@ func (x *vThRun) do(name string, args []string, stateful bool) string {
 	_ = x.env.takeReply()
 	cmd := strings.ToUpper(name)
 	line := vThShow(args)
-	x.out.emit("# texthandlers "+line, "# "+strings.SplitN(res, ":", 3)[0])
+	rec := "# texthandlers " + strings.SplitN(res, ":", 3)[0] + " " + line
+	x.out.emit(rec, rec) // no model counterpart: the driver echoes comment lines
 	hist := append([]string{}, x.history...)
 	if stateful {
 		x.history = append(x.history, line)
@@ -380,7 +381,7 @@ func vThHandlers(r *rand.Rand, x *vThRun, n int) {
 		}
 		firsts := []string{"key1", "0", "*"}
 		if n < 30 {
-			firsts = firsts[:1]
+			firsts = firsts[1:2] // "0": a valid key AND a valid number (cursor, db id, …)
 		}
 		for _, w := range words {
 			for _, first := range firsts {
@@ -567,7 +568,8 @@ func vThStreams(r *rand.Rand, x *vThRun, n int) {
 			}
 		}
 		x.calls++
-		x.out.emit(fmt.Sprintf("# texthandlers-stream %d commands", len(cmds)), "# "+strings.SplitN(res, ":", 3)[0])
+		rec := fmt.Sprintf("# texthandlers-stream %s %d commands", strings.SplitN(res, ":", 3)[0], len(cmds))
+		x.out.emit(rec, rec)
 		if strings.HasPrefix(res, "panic:") {
 			pp := strings.SplitN(res, ":", 3)
 			x.report("C13:text-handler-panic:STREAM:"+pp[1], "Process() panics on a client byte stream ("+pp[2]+")", map[string]interface{}{"commands": cmds})
@@ -650,36 +652,86 @@ func vThFrame(r *rand.Rand) []byte {
 	return append(out, body...)
 }
 
-func vThValueHelpers(r *rand.Rand, x *vThRun, n int) {
-	funcs := []struct {
-		name string
-		f    func(d *protocol.LockResultCommandData)
-	}{
-		{"GetValueOffset", func(d *protocol.LockResultCommandData) { _ = d.GetValueOffset() }},
-		{"GetValueSize", func(d *protocol.LockResultCommandData) { _ = d.GetValueSize() }},
-		{"GetBytesValue", func(d *protocol.LockResultCommandData) { _ = d.GetBytesValue() }},
-		{"GetStringValue", func(d *protocol.LockResultCommandData) { _ = d.GetStringValue() }},
-		{"GetIncrValue", func(d *protocol.LockResultCommandData) { _ = d.GetIncrValue() }},
-		{"GetArrayValue", func(d *protocol.LockResultCommandData) { _ = d.GetArrayValue() }},
-		{"GetKVValue", func(d *protocol.LockResultCommandData) { _ = d.GetKVValue() }},
-		{"GetDataProperties", func(d *protocol.LockResultCommandData) { _ = d.GetDataProperties() }},
-		{"GetDataProperty", func(d *protocol.LockResultCommandData) {
-			for c := 0; c < 3; c++ {
-				_ = d.GetDataProperty(uint8(c))
-			}
-		}},
+func vThShowList(xs []string) string {
+	if len(xs) == 0 {
+		return "empty"
 	}
-	for it := 0; it < 3000+40*n; it++ {
+	return strings.Join(xs, ",")
+}
+
+func vThValueHelpers(r *rand.Rand, x *vThRun, n int) {
+	// each reader: its canonical result (compared with the Lean model by the driver command `thval …`)
+	funcs := []struct {
+		name, op string
+		f        func(d *protocol.LockResultCommandData) string
+	}{
+		{"GetStringValue", "string", func(d *protocol.LockResultCommandData) string { return vHex([]byte(d.GetStringValue())) }},
+		{"GetBytesValue", "string", func(d *protocol.LockResultCommandData) string { return vHex(d.GetBytesValue()) }},
+		{"GetArrayValue", "array", func(d *protocol.LockResultCommandData) string {
+			vs := d.GetArrayValue()
+			if vs == nil {
+				return "nil"
+			}
+			out := []string{}
+			for _, v := range vs {
+				out = append(out, vHex(v))
+			}
+			return vThShowList(out)
+		}},
+		{"GetKVValue", "kv", func(d *protocol.LockResultCommandData) string {
+			m := d.GetKVValue()
+			if m == nil {
+				return "nil"
+			}
+			out := []string{}
+			for k, v := range m {
+				out = append(out, vHex([]byte(k))+"="+vHex(v))
+			}
+			sort.Strings(out)
+			return vThShowList(out)
+		}},
+		{"GetDataProperties", "props", func(d *protocol.LockResultCommandData) string {
+			ps := d.GetDataProperties()
+			if ps == nil {
+				return "nil"
+			}
+			out := []string{}
+			for _, p := range ps {
+				out = append(out, fmt.Sprintf("%d:%s", p.Code, vHex(p.Value)))
+			}
+			return vThShowList(out)
+		}},
+		{"GetDataProperty", "prop:1", func(d *protocol.LockResultCommandData) string {
+			p := d.GetDataProperty(1)
+			if p == nil {
+				return "none"
+			}
+			return vHex(p.Value)
+		}},
+		{"GetDataProperty", "prop:0", func(d *protocol.LockResultCommandData) string {
+			p := d.GetDataProperty(0)
+			if p == nil {
+				return "none"
+			}
+			return vHex(p.Value)
+		}},
+		{"GetIncrValue", "", func(d *protocol.LockResultCommandData) string { return fmt.Sprint(d.GetIncrValue()) }},
+		{"GetValueSize", "", func(d *protocol.LockResultCommandData) string { return fmt.Sprint(d.GetValueSize()) }},
+	}
+	for it := 0; it < 1500+40*n; it++ {
 		var raw []byte
-		if it%5 == 0 {
+		switch {
+		case it%5 == 0:
 			raw = vRandBytes(r, 6+r.Intn(30))
-		} else {
+		case it%97 == 0:
+			raw = vRandBytes(r, r.Intn(8))
+		default:
 			raw = vThFrame(r)
 		}
 		// the ingress check every client frame passes before it can be stored (and, later, read back)
 		accepted := protocol.NewLockCommandDataFromOriginBytes(raw) != nil
 		for _, fn := range funcs {
-			res := "ok"
+			res := ""
 			func() {
 				defer func() {
 					if rec := recover(); rec != nil {
@@ -690,14 +742,14 @@ func vThValueHelpers(r *rand.Rand, x *vThRun, n int) {
 						}
 					}
 				}()
-				fn.f(protocol.NewLockResultCommandDataFromOriginBytes(raw))
+				res = fn.f(protocol.NewLockResultCommandDataFromOriginBytes(raw))
 			}()
 			x.calls++
-			acc := "rejected-at-ingress"
-			if accepted {
-				acc = "accepted"
+			if fn.op != "" {
+				x.out.emit("thval "+fn.op+" "+vHex(raw), res)
+			} else {
+				x.out.emit("# valuehelper "+fn.name+" "+vHex(raw), "# valuehelper "+fn.name+" "+vHex(raw))
 			}
-			x.out.emit("# valuehelper "+fn.name+" "+acc+" "+vHex(raw), "# "+res)
 		}
 	}
 	// end to end: a binary connection stores the frame with a LOCK, text commands read the value back
@@ -725,7 +777,8 @@ func vThValueHelpers(r *rand.Rand, x *vThRun, n int) {
 			_ = e.v.conns[0].ProcessLockCommand(cmd)
 		}()
 		x.calls++
-		x.out.emit("# valueplant "+vHex(raw), "# "+strings.SplitN(planted, ":", 2)[0])
+		rec := "# valueplant " + strings.SplitN(planted, ":", 2)[0] + " " + vHex(raw)
+		x.out.emit(rec, rec)
 		if planted != "ok" {
 			// the binary ingest path belongs to the value-frame check (C13 value part); here only recorded
 			continue
